@@ -80,7 +80,7 @@ UNITS += [
     Unit("ssem.signal", "sliding.c", defines=["U_SIGNAL"], enforce="signal",
          lifts={"body": Lift(SS, r"void sliding_semaphore::signal\(", rules=[
              Sub(r"mutex_type\* mtx = l\.mutex\(\);", "struct vx_mutex* mtx = l.m; int64_t vx_l0 = self->lower_limit_;", 1),
-             Sub(r"\(std::max\)", "VX_MAX", 1),
+             Sub(r"\(std::max\)", "VX_MAX", None),
              Call(r"cond_\.size", "cv_size(&self->cond_, &{0})", 1),
              Sub(r"std::move\(l\)", "ulock_move(&l)", 1),
              Call(r"cond_\.notify_one", "cv_notify_one(&self->cond_, {0})", 1),
@@ -92,6 +92,22 @@ UNITS += [
          lifts={"body": Lift(SS, r"void sliding_semaphore::set_max_difference\(", rules=[Members(["max_difference_", "lower_limit_"])])},
          funcs=[SS + ": detail::sliding_semaphore::set_max_difference"]),
 ]
+
+PUB_RULES = [
+    Sub(r"std::move\((\w+)\)", r"ulock_move(&\1)", None),
+    Call(r"sem_\.signal", "d_signal(&self->sem_, {0}, {1})", None),
+    Call(r"sem_\.try_acquire", "d_try_acquire(&self->sem_, &{0})", None),
+    Call(r"sem_\.wait_until", "d_wait_until(&self->sem_, &{0}, {1}, {2})", None),
+    Call(r"sem_\.wait", "d_wait(&self->sem_, &{0}, {1})", None),
+    Guard(r"std::unique_lock<mutex_type> (\w+)\((\w+)\);", r"struct ulock \1 = ulock_make(&self->\2);", r"ulock_dtor(&\1);", None),
+]
+for nm, pat, defs in [("release", r"void release\(std::ptrdiff_t update = 1\)", "U_RELEASE"),
+                      ("try_acquire", r"bool try_acquire\(\) noexcept", "U_TRY_ACQUIRE"),
+                      ("acquire", r"void acquire\(\)", "U_ACQUIRE"),
+                      ("try_acquire_until", r"bool try_acquire_until\(pika::chrono::steady_time_point const& abs_time\)", "U_TRY_ACQUIRE_UNTIL")]:
+    UNITS.append(Unit("public." + nm, "public.c", defines=[defs], enforce=nm,
+                      lifts={"body": Lift(HPP, pat, rules=PUB_RULES)},
+                      funcs=[HPP + ": pika::counting_semaphore<>::" + nm], min_obligations=5))
 
 META = {
     "trusted_base": [
